@@ -306,7 +306,13 @@ def skel(f, toks):
         if hasattr(c, "get_bounds"):
             b = c.get_bounds(None)
             if b is not None and b.get_data(None) is not None:
-                out["bnd"] = {"ncvar": b.nc_get_variable(None), "props": strprops(b),
+                bp = strprops(b)
+                # the data of bounds carry the units / calendar of the parent
+                # coordinate, and Data.equals compares them
+                for name, val in (("units", b.data.get_units(None)), ("calendar", b.data.get_calendar(None))):
+                    if val is not None and name not in bp:
+                        bp[name] = canon_val(val)
+                out["bnd"] = {"ncvar": b.nc_get_variable(None), "props": bp,
                               "ncdim": b.nc_get_dimension(None), "shape": list(b.data.shape),
                               "tok": toks.of(b.data)}
             if getattr(c, "get_geometry", lambda d=None: None)(None) is not None:
